@@ -30,7 +30,7 @@ def run(ctx, plans):
         mx, nops, cfg, seed = job
         tf = os.path.join(tdir, "t_%d_%d.ndjson" % (mx, seed))
         with open(tf, "w") as fo:
-            r = subprocess.run([exe, str(mx), str(nops), str(seed)], stdout=fo, stderr=subprocess.PIPE, env=env, text=True)
+            r = subprocess.run([exe, str(mx), str(nops), str(seed)], stdout=fo, stderr=subprocess.PIPE, env=env, text=True, timeout=300, preexec_fn=vlib._die_with_parent)
         nev = sum(1 for _ in open(tf))
         if r.returncode != 0:
             return (job, tf, nev, "crash rc=%d %s" % (r.returncode, r.stderr[-300:]))
